@@ -73,6 +73,35 @@ def run_one(c, env, clk):
     api = c["api"]
     a = c.get("args", {})
     s = c["seed"]
+    if api == "reusable_rgreedy_history":
+        from cotengra.pathfinders.path_basic import ReusableRandomGreedyOptimizer
+
+        def net2():
+            n = c["net2"]
+            return tuple(tuple(t) for t in n["inputs"]), tuple(n["output"]), dict(n["size_dict"])
+
+        via = a.get("via", "search")
+
+        def ask(o, net):
+            return {"ssa": o.search(*net).get_ssa_path()} if via == "search" else {"path": [list(p) for p in o(*net)]}
+
+        o1 = ReusableRandomGreedyOptimizer(max_repeats=3, seed=s, parallel=False)
+        plain = ask(o1, _net(c))
+        o2 = ReusableRandomGreedyOptimizer(max_repeats=3, seed=s, parallel=False)
+        ask(o2, net2())  # the same reusable object answers another contraction first
+        inter = ask(o2, _net(c))
+        return {"plain": plain, "interleaved": inter, "same": canon(plain) == canon(inter)}
+    if api == "seeded_optimizer_via_interface":
+        from cotengra.pathfinders.path_basic import RandomGreedyOptimizer
+
+        def mk(seed):
+            return RandomGreedyOptimizer(max_repeats=3, seed=seed, parallel=False)
+
+        direct = {"path": [list(p) for p in mk(s)(*_net(c))]}
+        # another seeded optimizer object handles the same contraction through the (caching) interface first
+        ctg.array_contract_path(*_net(c), optimize=mk(a["other_seed"]), canonicalize=False)
+        via = {"path": [list(p) for p in ctg.array_contract_path(*_net(c), optimize=mk(s), canonicalize=False)]}
+        return {"plain": direct, "interleaved": via, "same": canon(direct) == canon(via)}
     if api == "object_interleaved":
         # a seeded OBJECT is built, then some other seeded operations run, then the object is used: the
         # result must equal that of building and using it back to back ("regardless of what was called before")
